@@ -5,6 +5,7 @@
 //!       the real crate builds the world and the projections are compared field by field.
 //!       impl -> spec: for a sample of the cases the real graph queries are recorded as trace
 //!       events that the trace specification validates.
+mod analyzer;
 mod fc;
 mod jsr;
 mod ops;
@@ -286,6 +287,7 @@ fn main() {
     Some("sched") => cmd_sched(&args),
     Some("info") => cmd_info(&args),
     Some("fc") => cmd_fc(&args),
+    Some("replay-analyzer") => cmd_replay_analyzer(&args),
     Some("fcdump") => cmd_fcdump(&args),
     Some("replay-enc") => cmd_replay_enc(&args),
     _ => {
@@ -950,5 +952,37 @@ pub fn cmd_fcdump(args: &[String]) -> i32 {
       }
     }
   }
+  0
+}
+
+/// replay-analyzer (C08): TLC-generated documents, each rendered `--reps` times with different seeded trivia
+pub fn cmd_replay_analyzer(args: &[String]) -> i32 {
+  use rand::SeedableRng;
+  let cases_path = arg(args, "--cases").expect("--cases");
+  let result_path = arg(args, "--result").expect("--result");
+  let seed: u64 = arg(args, "--seed").map(|s| s.parse().unwrap()).unwrap_or(1);
+  let reps: usize = arg(args, "--reps").map(|s| s.parse().unwrap()).unwrap_or(1);
+  let mut rng = rand::rngs::StdRng::seed_from_u64(seed);
+  let mut mism = vec![];
+  let mut stats = (0usize, 0usize, 0usize);
+  let mut n = 0;
+  for (i, l) in std::io::BufReader::new(std::fs::File::open(&cases_path).expect("cases")).lines().enumerate() {
+    let l = l.unwrap();
+    if l.trim().is_empty() { continue; }
+    let case: Value = serde_json::from_str(&l).unwrap();
+    for _ in 0..reps {
+      analyzer::check_case(i, &case, &mut rng, &mut mism, &mut stats);
+    }
+    n += 1;
+  }
+  let mut corpus = (0usize, 0usize, 0usize);
+  if let Some(dir) = arg(args, "--corpus") {
+    for (spec, text) in corpus_sources(&dir) {
+      analyzer::check_corpus_source(&spec, &text, &mut mism, &mut corpus);
+    }
+  }
+  let res = json!({"cases": n, "documents": stats.0, "descriptors": stats.1, "ranges_checked": stats.2,
+                   "corpus_modules": corpus.0, "corpus_descriptors": corpus.1, "corpus_ranges": corpus.2, "mismatches": mism});
+  std::fs::write(&result_path, serde_json::to_string(&res).unwrap()).unwrap();
   0
 }
